@@ -271,6 +271,59 @@ def modal_interplay_template(rng):
     rng.shuffle(prems)
     return prems, conc
 
+def modal_contradiction_template(rng):
+    """A modal contradiction (or a disjunction of two) under a prefix of modal operators as a
+    premise, next to premises that repeat its own sub-sentences at the top level; irrelevant
+    conclusion. Which logics prove it depends on the frame condition needed to bring the two
+    halves of the contradiction together."""
+    x, y = [('A', i, 0) for i in rng.sample(range(3), 2)]
+    def neg(s): return ('O', 'Negation', (s,))
+    def box(s): return ('O', 'Necessity', (s,))
+    def dia(s): return ('O', 'Possibility', (s,))
+    def conj(a, b): return ('O', 'Conjunction', (a, b) if rng.random() < 0.5 else (b, a))
+    def disj(a, b): return ('O', 'Disjunction', (a, b) if rng.random() < 0.5 else (b, a))
+    def core():
+        k = rng.randrange(9)
+        if k == 0: p, q = box(neg(x)), dia(x)
+        elif k == 1: p, q = box(neg(x)), box(dia(x))
+        elif k == 2: p, q = box(x), neg(x)
+        elif k == 3: p, q = box(box(neg(x))), dia(dia(x))
+        elif k == 4: p, q = box(neg(x)), dia(dia(x))
+        elif k == 5: p, q = box(('O', 'MaterialConditional', (x, y))), dia(conj(x, neg(y)))
+        elif k == 6: p, q = box(neg(x)), disj(dia(x), dia(x))
+        elif k == 7: p, q = x, neg(x)
+        else: p, q = box(dia(x)), box(box(neg(x)))
+        return conj(p, q), (p, q)
+    c1, parts = core()
+    def wrap(s):
+        for _ in range(rng.choice((0, 1, 1, 2))):
+            s = (dia if rng.random() < 0.7 else box)(s)
+        return s
+    main = wrap(c1)
+    if rng.random() < 0.35:
+        # two contradictions as alternatives, mostly each in a new world of its own
+        c2, parts2 = core()
+        parts = parts + parts2
+        if rng.random() < 0.6:
+            main = disj(dia(c1), dia(c2))
+        else:
+            main = disj(main, wrap(c2))
+    prems = [main]
+    # sub-sentences of the contradiction repeated at the top level
+    subs = [z for p in parts for z in refsem.walk(p) if z[0] == 'O' and z[1] in ('Possibility', 'Necessity')]
+    r = rng.random()
+    if r < 0.3:
+        prems.append(dia(x))
+    elif r < 0.6 and subs:
+        prems.append(rng.choice(subs))
+    elif r < 0.8:
+        prems.append(dia(rng.choice((x, y))))
+    if rng.random() < 0.2:
+        prems.append(dia(('A', 3, 0)))
+    rng.shuffle(prems)
+    conc = ('A', 3, 1) if rng.random() < 0.7 else dia(('A', 3, 1))
+    return prems, conc
+
 def witness_worlds_template(rng):
     """Quantified sentences and instances of their matrices spread over different worlds: the
     witness of an existential at one world next to the same predication at another."""
@@ -317,7 +370,7 @@ def gen_case(rng, logic, fragment=None, p_example=0.3):
     if sem.modal and fragment in (None, 'modal'):
         serial = sem.frame == 'D'
         table += [(0.06, deep_modal_template), (0.15 if serial else 0.07, dead_end_template),
-                  (0.10, modal_interplay_template),
+                  (0.10, modal_interplay_template), (0.06, modal_contradiction_template),
                   (0.25 if serial else (0.15 if fragment is None else 0.3), modal_template)]
         if fragment is None and sem.quantified:
             table += [(0.07, lambda r: modal_fo_template(r, identity=sem.classical)), (0.07, witness_worlds_template)]
